@@ -36,6 +36,8 @@ type Program struct {
 	loadSecs  float64
 	allTP     []*types.Package
 	externIfaces []string
+	aimI      *AimInfo
+	aimOn     func(tag string) bool // aim mode (C07) is used for contracts whose aimcheck tag it accepts
 }
 
 func LoadProgram(repo string, patterns []string) (*Program, error) {
@@ -116,11 +118,29 @@ func (P *Program) LoadContracts() error {
 				if c.Extern {
 					key = strings.ReplaceAll(c.Target, " ", "")
 				}
-				if _, dup := P.contracts[key]; dup {
-					return fmt.Errorf("%s:%d: duplicate contract for %s", c.File, c.Line, c.Target)
+				if prev, dup := P.contracts[key]; dup {
+					// an aim-only block (aimcheck + clauses tagged with its property) may sit in another file than the
+					// function's main contract
+					switch {
+					case c.aimOnly() && (prev.AimCheck == nil || c.AimCheck == nil):
+						prev.mergeAim(c)
+					case prev.aimOnly() && (c.AimCheck == nil || prev.AimCheck == nil):
+						c.mergeAim(prev)
+						P.contracts[key] = c
+					default:
+						return fmt.Errorf("%s:%d: duplicate contract for %s", c.File, c.Line, c.Target)
+					}
+					continue
 				}
 				P.contracts[key] = c
 			}
+			defer func() {
+				for _, c := range P.contracts {
+					if c.AimCheck != nil && c.AimInvs == nil {
+						c.splitAim()
+					}
+				}
+			}()
 			for _, ic := range cf.Ifaces {
 				if strings.Contains(ic.Name, "/") {
 					P.ifaces[ic.Name] = ic // interface of a dependency, full name
